@@ -70,7 +70,8 @@ Record cfg := mkCfg {
   c_getitem_col_off : Z;          (* ... to a Column index that contains no numeric literal *)
   c_getitem_numkey_off : Z;       (* ... to a Column index that contains one (element_at_using_brackets) *)
   c_pred_opwrap : bool;           (* isNull isNotNull isin between like ilike pass their operands through _operand *)
-  c_between_unalias : bool }.     (* between takes its bounds with .column_expression (no Alias node survives) *)
+  c_between_unalias : bool;       (* between takes its bounds with .column_expression (no Alias node survives) *)
+  c_substr_zero_as_one : bool }.  (* substr: a bare Python int position 0 is written as 1 (Spark reads 0 as 1) *)
 
 (** ---- sqlframe's builder ---------------------------------------------------------------------- *)
 (** column.py's _operand: the expression classes that are written bare *)
@@ -90,6 +91,9 @@ Definition mkbin (bf : binfact) (self0 other0 : sexpr) : sexpr :=
 Definition mkun (uf : unfact) (x : sexpr) : sexpr :=
   let x' := if uf_paren uf then SParen x else x in
   if uf_not uf then SNot x' else SNeg x'.
+(** substr(0, n): the position the engine must see is 1 *)
+Definition is_zero_start (p : uexpr) : bool := match p with UPy (VInt 0) => true | _ => false end.
+
 Definition pylit (strlit : bool) (v : val) : sexpr :=
   match v with VStr s => if strlit then SLit v else SCol s | _ => SLit v end.
 
@@ -144,7 +148,9 @@ Fixpoint build (c : cfg) (t : uexpr) : sexpr :=
   | URlike a p => SCall2 (c_rlike_fn c) (build c a) (SLit (VStr p))
   | UStartsWith a b => SCall2 (c_startswith_fn c) (build c a) (build c b)
   | UEndsWith a b => SCall2 (c_endswith_fn c) (build c a) (build c b)
-  | USubstr a p l => SCall3 (c_substr_fn c) (build c a) (build c p) (build c l)
+  | USubstr a p l =>
+      SCall3 (c_substr_fn c) (build c a)
+        (if c_substr_zero_as_one c && is_zero_start p then SLit (VInt 1) else build c p) (build c l)
   | UWhen bs => SCase (buildb c bs)
   | UCast a ty => SCast (build c a) ty
   | UAlias a _ => build c a
@@ -178,7 +184,7 @@ Fixpoint denote (t : uexpr) : sexpr :=
   | URlike a p => SCall2 "REGEXP_MATCHES" (denote a) (SLit (VStr p))
   | UStartsWith a b => SCall2 "STARTS_WITH" (denote a) (denote b)
   | UEndsWith a b => SCall2 "ENDS_WITH" (denote a) (denote b)
-  | USubstr a p l => SCall3 "SUBSTRING" (denote a) (denote p) (denote l)
+  | USubstr a p l => SCall3 "SUBSTRING" (denote a) (if is_zero_start p then SLit (VInt 1) else denote p) (denote l)
   | UWhen bs => SCase (denoteb bs)
   | UCast a ty => SCast (denote a) ty
   | UAlias a _ => denote a
@@ -272,7 +278,7 @@ Fixpoint agree (en : env) (t : uexpr) : bool :=
   | UCast a ty => agree en a && val_eqb (cast_to ty (ueval en a)) (cast_spark ty (ueval en a))
   | UBetween a b c => agree en a && agree en b && agree en c
   | USubstr a b c => agree en a && agree en b && agree en c &&
-      val_eqb (substr3 substr_duck (ueval en a) (ueval en b) (ueval en c))
+      val_eqb (substr3 substr_duck (ueval en a) (if is_zero_start b then VInt 1 else ueval en b) (ueval en c))
               (substr3 substr_spark (ueval en a) (ueval en b) (ueval en c))
   | UWhen bs => agreeb en bs
   end
@@ -311,6 +317,12 @@ Proof.
            end; try reflexivity;
     try (match goal with E : val_eqb _ _ = true |- _ => apply val_eqb_eq in E end; cbn [call3 String.eqb Ascii.eqb Bool.eqb]; assumption).
   - (* isNotNull *) destruct (ueval en a); reflexivity.
+  - (* substr *)
+    destruct (is_zero_start p);
+      [| match goal with IH : forall en, udom en p = true -> _, D : udom _ p = true, A : agree _ p = true |- _ =>
+           rewrite (IH _ D A) end];
+      cbn [seval]; match goal with E : val_eqb _ _ = true |- _ => apply val_eqb_eq in E end;
+      cbn [call3 String.eqb Ascii.eqb Bool.eqb]; assumption.
   - (* getItem literal *) rewrite abase_denote. destruct (ubase a); [|reflexivity].
     cbn [bin3 arith num_of is_int andb mk_num].
     destruct (arr_lookup (e_arrs en) s); [|reflexivity].
